@@ -157,9 +157,19 @@ func (fx *fexec) enterLoop(li *loopInfo, cur *State) *State {
 		srt := mod.comps[c]
 		old := vc.heapGet(cur, c, srt)
 		tg := mod.targets[c]
-		if tg != nil && !mod.coarse[c] {
-			// exact frame: only the listed (loop-invariant) references change
+		if (tg != nil || mod.fresh[c]) && !mod.coarse[c] {
+			// exact frame: only the listed (loop-invariant) references change, plus — when
+			// the component is also written at references allocated inside the loop —
+			// anything at or above the allocation counter of the loop entry
 			nv := old
+			if mod.fresh[c] {
+				f := vc.fresh("loop_"+c, srt)
+				vc.ctr["qv"]++
+				r := Term{fmt.Sprintf("q_r!%d", vc.ctr["qv"]), SInt}
+				body := implies(lt(r, cur.alloc), eq(sel(f, r), sel(old, r)))
+				vc.assert(Term{fmt.Sprintf("(forall ((%s Int)) %s)", r.S, body.S), SBool})
+				nv = f
+			}
 			for _, r := range tg {
 				f := vc.fresh("loop_"+c, arrayElemSort(srt))
 				nv = store(nv, r, f)
@@ -237,12 +247,13 @@ type modSet struct {
 	comps   map[string]string // component -> sort
 	targets map[string][]Term // component -> loop-invariant references written
 	coarse  map[string]bool   // component written through a non-invariant reference
+	fresh   map[string]bool   // component written at references allocated inside the loop
 	allocs  bool
 	varying func(ssa.Value) bool
 }
 
 func newModSet() *modSet {
-	return &modSet{comps: map[string]string{}, targets: map[string][]Term{}, coarse: map[string]bool{}}
+	return &modSet{comps: map[string]string{}, targets: map[string][]Term{}, coarse: map[string]bool{}, fresh: map[string]bool{}}
 }
 
 // loopModifies over-approximates the heap components written in the loop body.
@@ -266,6 +277,10 @@ func (fx *fexec) scanModifies(fn *ssa.Function, inScope func(*ssa.BasicBlock) bo
 	vc := fx.vc
 	addTarget := func(comp, srt string, base ssa.Value, refOf func(Val) Term) {
 		ms.comps[comp] = srt
+		if a, isAlloc := base.(*ssa.Alloc); isAlloc && (inScope == nil || inScope(a.Block())) {
+			ms.fresh[comp] = true // a cell allocated inside the scanned region
+			return
+		}
 		if varying == nil || base == nil || varying(base) {
 			ms.coarse[comp] = true
 			return
@@ -346,18 +361,21 @@ func (fx *fexec) scanModifies(fn *ssa.Function, inScope func(*ssa.BasicBlock) bo
 					for i := 0; i < st.NumFields(); i++ {
 						comp, srt := vc.fieldComp(et, i)
 						ms.comps[comp] = srt
-						ms.coarse[comp] = true
+						ms.fresh[comp] = true
 					}
+				} else if isBigInt(vc.resolve(et)) {
+					ms.comps[bigComp] = bigSort
+					ms.fresh[bigComp] = true
 				} else {
 					comp, srt := vc.cellComp(et)
 					ms.comps[comp] = srt
-					ms.coarse[comp] = true
+					ms.fresh[comp] = true
 				}
 			case *ssa.MakeSlice:
 				ms.allocs = true
 				comp, srt := vc.elemComp(vc.under(x.Type()).(*types.Slice).Elem())
 				ms.comps[comp] = srt
-				ms.coarse[comp] = true
+				ms.fresh[comp] = true
 			case *ssa.MakeMap:
 				ms.allocs = true
 				m := vc.under(x.Type()).(*types.Map)
@@ -374,7 +392,11 @@ func (fx *fexec) scanModifies(fn *ssa.Function, inScope func(*ssa.BasicBlock) bo
 					if at, ok := vc.under(pt.Elem()).(*types.Array); ok {
 						comp, srt := vc.elemComp(at.Elem())
 						ms.comps[comp] = srt
-						ms.coarse[comp] = true
+						if a, isAlloc := x.X.(*ssa.Alloc); isAlloc && (inScope == nil || inScope(a.Block())) {
+							ms.fresh[comp] = true
+						} else {
+							ms.coarse[comp] = true
+						}
 					}
 				}
 			case *ssa.Convert:
